@@ -1,10 +1,102 @@
-(* Property C18, job-shop part (solvor/job_shop.py). *)
+(* Property C18, job-shop part (solvor/job_shop.py): schedules are structurally valid and honestly scored.
+   Model: C18/JobShop.v (tied to /repo on every check run by Cases/C18/js_corr_*.v); specification and boolean
+   checker: C18/JobShopSpec.v; proofs: C18/JobShopProofs.v, C18/JobShopProofs2.v.
+   The VRPTW part of C18 is in Props/C18_vrp.v. *)
 From Coq Require Import List ZArith Bool Arith.
-From SV Require Import C18.JobShop C18.JobShopSpec.
+From SV Require Import C18.JobShop C18.JobShopSpec C18.JobShopProofs C18.JobShopProofs2 C18.JobShopProofs3.
 Import ListNotations.
 Open Scope Z_scope.
 
+(* (1) The list-scheduling kernel, for EVERY `choose` (any auxiliary state, any function: whatever index it
+   answers is a ready operation or the run fails) on every input whose machine indices fit the clock vector and
+   whose durations are non-negative: every operation exactly once, end - start = duration, job order without
+   overlap, no machine overlap (valid_schedule, C18/JobShopSpec.v) - and, stronger, operations of one machine are
+   sequential even when some have zero length. *)
+Theorem C18_js_valid :
+  forall (A : Type) (choose : A -> kst -> list rop -> option (nat * A)) jobs nm a a' s,
+  jobs_ok jobs nm = true ->
+  schedule_with choose jobs (total_ops jobs) a (init_kst jobs nm) = Some (a', s) ->
+  valid_schedule jobs (sch s) /\ machine_sequential jobs (sch s).
+Proof. exact kernel_valid. Qed.
+Print Assumptions C18_js_valid.
+
+(* _rebuild_schedule: for every old schedule, target machine and machine order on which it completes *)
+Theorem C18_js_rebuild_valid : forall jobs old target order ns,
+  valid_jobs jobs = true -> rebuild jobs old target order = Some ns -> valid_schedule jobs ns.
+Proof. exact rebuild_valid. Qed.
+Print Assumptions C18_js_rebuild_valid.
+
+(* solve_job_shop as a whole: every job list, rule, local-search flag and length, call-back, random answers *)
+Theorem C18_js_solve_valid : forall jobs rl ls max_iter cb interval orc s obj st orc',
+  solve jobs rl ls max_iter cb interval orc = (Ok s obj st, orc') -> js_spec jobs s obj st.
+Proof. exact solve_valid_schedule. Qed.
+Print Assumptions C18_js_solve_valid.
+
+(* (2) the returned objective is the latest end time of the returned schedule *)
+Theorem C18_js_objective : forall jobs rl ls max_iter cb interval orc s obj st orc',
+  solve jobs rl ls max_iter cb interval orc = (Ok s obj st, orc') ->
+  obj = makespan s /\ is_makespan s obj.
+Proof. exact solve_objective. Qed.
+Print Assumptions C18_js_objective.
+
+(* (3) local search never worsens the makespan: end to end (the same call without local search) ... *)
+Theorem C18_js_ls_monotone : forall jobs rl max_iter cb interval orc s0 o0 st0 r0 s1 o1 st1 r1,
+  solve jobs rl false max_iter cb interval orc = (Ok s0 o0 st0, r0) ->
+  solve jobs rl true max_iter cb interval orc = (Ok s1 o1 st1, r1) ->
+  o1 <= o0.
+Proof. exact solve_ls_monotone. Qed.
+Print Assumptions C18_js_ls_monotone.
+
+(* ... and from every reachable state of the loop, for the incumbent and for the best *)
+Theorem C18_js_ls_loop_monotone : forall jobs cb interval fuel it st orc st' orc',
+  valid_jobs jobs = true -> ls_inv jobs st ->
+  ls_loop jobs cb interval fuel it st orc = Some (st', orc') ->
+  best_mk st' <= best_mk st /\ cur_mk st' <= cur_mk st.
+Proof. exact ls_loop_monotone. Qed.
+Print Assumptions C18_js_ls_loop_monotone.
+
+(* the theorems above are about every run: for the rules fifo/spt/lpt/mwkr and an oracle holding one machine draw per
+   local-search pass the model never takes its failure value (for rule 'random' the choice answers must also be
+   indices into the ready list, which the recorded ones are - checked case by case by the correspondence) *)
+Theorem C18_js_total : forall jobs rl ls max_iter cb interval orc,
+  deterministic rl = true -> (Z.to_nat max_iter <= length orc)%nat ->
+  fst (solve jobs rl ls max_iter cb interval orc) <> Fail.
+Proof. exact solve_total. Qed.
+Print Assumptions C18_js_total.
+
+(* the boolean checker run by coqc on the IMPLEMENTATION's outputs (Cases/C18/js_spec_*.v) is sound *)
 Theorem C18_js_spec_check_sound : forall jobs s obj st,
   spec_check jobs (IOk s obj st) = true -> js_spec jobs s obj st.
 Proof. exact spec_check_sound. Qed.
 Print Assumptions C18_js_spec_check_sound.
+
+(* ------------------------------------------------------------------ non-vacuity *)
+Definition ex_jobs : list job :=
+  [[(1, 3); (0, 1)]; [(0, 2); (0, 4)]; [(0, 4); (0, 5)]; [(1, 4); (1, 0); (1, 2)]].
+
+Example C18_js_nonvacuous_input : valid_jobs ex_jobs = true /\ jobs_ok ex_jobs (n_machines ex_jobs) = true.
+Proof. vm_compute. split; reflexivity. Qed.
+
+(* the kernel completes for an arbitrary (here: "always the last ready operation") choose *)
+Example C18_js_nonvacuous_kernel :
+  exists s, schedule_with (fun (_ : unit) _ rd => Some ((length rd - 1)%nat, tt)) ex_jobs (total_ops ex_jobs) tt
+              (init_kst ex_jobs 2) = Some (tt, s) /\ length (sch s) = 9%nat.
+Proof. eexists. vm_compute. split; reflexivity. Qed.
+
+(* solve_job_shop(ex_jobs, rule='spt', seed=480, max_iter=1): dispatch gives 17, one swap on machine 1 gives 16
+   (the recorded random answer is [1]); observed on /repo as well *)
+Example C18_js_nonvacuous_solve :
+  (exists s r, solve ex_jobs Spt false 1 None 0 [1%nat] = (Ok s 17 Feasible, r)) /\
+  (exists s r, solve ex_jobs Spt true 1 None 0 [1%nat] = (Ok s 16 Feasible, r)).
+Proof. split; eexists; eexists; vm_compute; reflexivity. Qed.
+
+(* random rule: 9 choice answers, then 3 machine draws *)
+Example C18_js_nonvacuous_random :
+  exists s obj, solve ex_jobs Rnd true 3 None 0 [3; 0; 1; 0; 1; 1; 0; 0; 0; 0; 1; 0]%nat = (Ok s obj Feasible, []).
+Proof. eexists. eexists. vm_compute. reflexivity. Qed.
+
+(* the checker accepts a correct output and rejects a machine overlap *)
+Example C18_js_nonvacuous_check :
+  spec_check [[(0, 2)]; [(0, 3)]] (IOk [((0%nat, 0%nat), (0, 2)); ((1%nat, 0%nat), (2, 5))] 5 Feasible) = true /\
+  spec_check [[(0, 2)]; [(0, 3)]] (IOk [((0%nat, 0%nat), (0, 2)); ((1%nat, 0%nat), (1, 4))] 4 Feasible) = false.
+Proof. vm_compute. split; reflexivity. Qed.
